@@ -74,8 +74,17 @@ func wrapRunner(item int) randomness.TestFunc {
 			return origRunners[item](data)
 		}
 		if st.inPrelude() {
-			// an earlier call of the same run: real results, nothing recorded
-			return origRunners[item](data)
+			// an earlier call of the same run: nothing recorded. Its results do
+			// not matter to the oracle; with scripted runners every cell passes
+			// (cheap at any sample size), with real runners they are real.
+			if st.cfg.Runners.Mode == "real" {
+				return origRunners[item](data)
+			}
+			if st.sim {
+				simrt.Yield("runner." + itoa(item))
+			}
+			c := mkCell(item, 0.55)
+			return &randomness.TestResult{Name: ItemNames[item], P: c.P, Q: c.Q, P2: c.P2, Q2: c.Q2, Pass: c.Pass}
 		}
 		if st.sim {
 			simrt.Yield("runner." + itoa(item))
